@@ -242,4 +242,11 @@ def rm_no_process_lifetime_results(ctx: Ctx) -> None:
     state_rule(ctx)
 
 
-RULES = [r1_no_truncation, r2_bias_equals_length, r3_both_ends_checked, r4_run_address_bookkeeping, r5_bank_classification, r6_layout_agreement, rb_binding_agreement, rm_no_process_lifetime_results]
+def ru_names_bound(ctx: Ctx) -> None:
+    """a local read but never bound raises NameError for every input that reaches the statement (shared rule, names.py)"""
+    from ..names import names_rule
+
+    names_rule(ctx)
+
+
+RULES = [r1_no_truncation, r2_bias_equals_length, r3_both_ends_checked, r4_run_address_bookkeeping, r5_bank_classification, r6_layout_agreement, rb_binding_agreement, rm_no_process_lifetime_results, ru_names_bound]
